@@ -194,11 +194,12 @@ pub fn narrow_down_type(
         LuaType::Instance(base) => {
             return narrow_down_type(db, source, base.get_base().clone(), declared);
         }
-        LuaType::BooleanConst(_) => {
+        LuaType::BooleanConst(value) => {
             if real_source_ref.is_boolean() {
                 return Some(LuaType::Boolean);
             } else if real_source_ref.is_unknown() {
-                return Some(LuaType::BooleanConst(true));
+                // keep the literal: narrowing an unknown source to `false` must not yield `true`
+                return Some(LuaType::BooleanConst(*value));
             }
         }
         LuaType::Union(target_u) => {
